@@ -25,6 +25,19 @@ fn gen_word(r: &mut Rng, clean: bool) -> String {
         if r.chance(1, 3) {
             s.push_str(*r.pick(&["a-b", "-", "x-y-z", "1-2", "é-ü", "--a-b", "a--b", "-a", "b-", "你-好", "a-\u{1b}[0mb"]));
         }
+        if r.chance(1, 4) {
+            // '-' between two random scalars: the alphanumeric rule across all of Unicode
+            let a = crate::gen::text::random_scalar(r);
+            let b = crate::gen::text::random_scalar(r);
+            if a != ' ' && b != ' ' {
+                s.push(a);
+                s.push('-');
+                s.push(b);
+                if r.coin() {
+                    s.push_str("-x");
+                }
+            }
+        }
         if r.chance(1, 6) {
             // words with interior spaces occur with the Unicode separator
             s.push_str(" )");
@@ -148,7 +161,7 @@ fn check_break(case: &Case, obs: &mut Obs) -> Verdict {
     if concat != word.word {
         return Verdict::Violated(format!("break_apart({}) pieces concatenate to {:?}, not {:?}", limit, concat, word.word));
     }
-    let clean = clean_ansi(word.word);
+    let clean = crate::oracle::ansi::wellformed_or_two_char(word.word);
     let toks = tokenize(word.word);
     let mut pos = 0usize;
     for (k, p) in pieces.iter().enumerate() {
